@@ -5,7 +5,7 @@ from vlib.core import Result
 from . import progcommon as pc, tmpl
 
 RULE = ("case = one template program in which 2-5 non-recursive rules (scans, 2- and 3-way joins, rules sharing the counter, "
-        "autoinc() in one or two head columns and inside arithmetic-free positions) derive 10^2-10^4 tuples with autoinc(); "
+        "autoinc() in one or two head columns, inside an arithmetic expression, in a rule of a later stratum behind a recursive stratum and a negation) derive 10^2-10^4 tuples with autoinc(); "
         "run by the real interpreter at -j1 and at three thread counts from {2,3,4,8,16} with injected schedule perturbation; "
         "oracle = the multiset of all values that autoinc() wrote (designated columns of all output relations) has no "
         "duplicate, and every relation holds exactly as many tuples as its rule has derivations (computed in Python), i.e. "
@@ -24,7 +24,7 @@ def program(seed):
     exp = {}      # relation -> (expected tuple count, [autoinc column indexes])
     nrules = rng.randint(2, 5)
     for i in range(nrules):
-        shape = rng.choice(["scan", "join2", "join3", "two-ids", "filtered", "second-rule"])
+        shape = rng.choice(["scan", "join2", "join3", "two-ids", "filtered", "second-rule", "arith", "later-stratum"])
         name = "a%d" % i
         if shape == "scan":
             o += [".decl %s(x:number, id:number)" % name, ".output %s" % name, "%s(x, autoinc()) :- n(x)." % name]
@@ -44,12 +44,21 @@ def program(seed):
             c = rng.randint(2, 5)
             o += [".decl %s(x:number, id:number)" % name, ".output %s" % name, "%s(x, autoinc()) :- n(x), k(y), x %% %d = y." % (name, c)]
             exp[name] = (sum(1 for x in range(n) for y in range(m) if x % c == y), [1])
+        elif shape == "arith":
+            # the counter value inside an expression: id = 2 * value + 1
+            o += [".decl %s(x:number, id:number)" % name, ".output %s" % name, "%s(x, autoinc() * 2 + 1) :- n(x), k(_)." % name]
+            exp[name] = (n, [1], lambda v: (v - 1) // 2 if v % 2 == 1 else ("not 2v+1", v))
+        elif shape == "later-stratum":
+            # a recursive stratum and a negation lie between this rule and the earlier users of the counter
+            o += [".decl %s_r(x:number)" % name, "%s_r(0)." % name, "%s_r(x + 1) :- %s_r(x), x < %d." % (name, name, n // 2),
+                  ".decl %s(x:number, id:number)" % name, ".output %s" % name, "%s(x, autoinc()) :- n(x), !%s_r(x)." % (name, name)]
+            exp[name] = (n - (n // 2 + 1), [1])
         else:
             o += [".decl %s(x:number, id:number)" % name, ".output %s" % name, "%s(x, autoinc()) :- n(x).", "%s(x + 100000, autoinc()) :- n(x), k(0)."]
             o[-2] = o[-2] % name
             o[-1] = o[-1] % name
             exp[name] = (2 * n, [1])
-    return "\n".join(o) + "\n", exp, sum(cnt * len(cols) for cnt, cols in exp.values())
+    return "\n".join(o) + "\n", exp, sum(e[0] * len(e[1]) for e in exp.values())
 
 
 def worker(arg):
@@ -81,7 +90,9 @@ def worker(arg):
             viols.append(("error-exit", "-j%d exited with %s\n%s\n%s" % (j, r.rc, r.err[-1500:], text)))
             continue
         ids = []
-        for name, (cnt, cols) in sorted(exp.items()):
+        for name, e in sorted(exp.items()):
+            cnt, cols = e[0], e[1]
+            dec = e[2] if len(e) > 2 else (lambda v: v)
             rows = tmpl.read_rows(d, name, od)
             if rows is None:
                 viols.append(("output:missing", "-j%d: no output for %s\n%s" % (j, name, text)))
@@ -91,7 +102,7 @@ def worker(arg):
                     j, name, len(rows), cnt, text)))
             for row in rows:
                 for c in cols:
-                    ids.append(row[c])
+                    ids.append(dec(row[c]))
         if len(set(ids)) != len(ids):
             seen, dup = set(), []
             for x in ids:
